@@ -26,7 +26,9 @@ class Profile:
         return runs
 
     def params(self, rng, tier):
-        return {"listing": rng.choice(["sorted", "reversed", "shuffled"])}
+        # list_variant: how the FindInList parties are built (its constructor options are part of the public API)
+        return {"listing": rng.choice(["sorted", "reversed", "shuffled"]),
+                "list_variant": rng.choice(["plain"] * 6 + ["strip", "strip", "presort", "presort"])}
 
     def setup(self, run):
         run.start_epoch()
